@@ -329,11 +329,11 @@ class Cluster:
         """
 
         no_tasks_running = (
-                (len(self._clusters['default']['tasks']['running']) == 0) or (
+                (len(self._clusters['default']['tasks']['running']) == 0) and (
                 len(self._clusters['default']['tasks']['waiting']) == 0))
 
         no_resources_occupied = ((len(
-            self._clusters['default']['resources']['occupied']) == 0) or (len(
+            self._clusters['default']['resources']['occupied']) == 0) and (len(
             self._clusters['default']['resources']['ingest']) == 0))
         if no_tasks_running and no_resources_occupied:
             return True
